@@ -41,6 +41,9 @@ func (i *Inst) NewProtoCtx(s Script, rng *rand.Rand) *ProtoCtx {
 func (pc *ProtoCtx) OpenOpts() OpenOpts {
 	s, i, user := pc.S, pc.I, pc.User
 	oo := OpenOpts{Transport: s.Transport, LocalIP: s.Tun.UseIP, XFF: s.Tun.UseXFF}
+	if s.Transport == "ws" {
+		oo.Cid = s.Tun.Cid
+	}
 	switch pc.Cfg.Auth {
 	case "ntlm":
 		oo.NTLM = &wsraw.NTLMCreds{User: user, Pass: i.Users[user]}
